@@ -545,6 +545,8 @@ def run(ctx):
     stream_end(ctx, P, rng, 500 if th else 100)
     stream_once(ctx, P, rng, 400 if th else 80)
     P.finish()
+    from . import pathrun
+    pathrun.path_stream(ctx, ctx.rng("c16-paths"), 6000 if ctx.thorough else 1500, impl)
 
 
 def search(ctx, broken):
